@@ -15,7 +15,7 @@ def rebuild_for_replay(rec):
 
 def run(chk):
     # cases PER SHARD; 2/3 of the cases are component tuples (each parsed under all 5 lookup outcomes), 1/3 byte strings
-    per = chk.pick(8000, 150000)
+    per = chk.pick(8000, 600000)
     chk.run('asan', build('asan'), per)
     # same workload with every never-assigned local holding a non-canonical pattern: a lookup result that was
     # never obtained cannot be dereferenced without faulting
